@@ -36,4 +36,12 @@ theorem unspool_ok :
     (isInfix ["1 if conn != nil && dest.Spool && !dest.SlowLastLoop && !dest.SlowNow", "2 assign toUnspool = dest.spool.Out", "1 else ", "2 assign toUnspool = nil"] relay &&
      isInfix ["2 case buf := <-toUnspool", "3 call nonBlockingSend(buf)"] relay) = true := by decide +kernel
 
+/-- what a route does per destination before the hand-off is `dest.Match`: it holds the matcher lock only for the match itself, and
+`Destination.Update` (modDest) never holds that lock — in particular not while `updateConn` dials a new address -/
+theorem match_lock_ok :
+    (Crng.Gen.skel_destination_Destination_Match == ["0 call dest.lockMatcher.Lock()", "0 defer dest.lockMatcher.Unlock()", "0 return dest.Matcher.Match(s)"] &&
+     containing "lockMatcher" Crng.Gen.skel_destination_Destination_Update == [] &&
+     containing "dest.Matcher" Crng.Gen.skel_destination_Destination_Update == [] &&
+     containing "updateConn" Crng.Gen.skel_destination_Destination_Update == ["1 call dest.updateConn(addr)"]) = true := by decide +kernel
+
 end Crng.Tie.C06
